@@ -4,6 +4,7 @@
 -/
 import Rox.Spec.Tree
 import Rox.Lemmas.BInv4
+import Rox.Lemmas.NoAdjText
 
 namespace Rox.Props.C02
 open Rox Rox.Spec Rox.Lemmas
@@ -94,6 +95,21 @@ theorem wf_iff_links (a : Arena) :
     rw [this]; rfl
   · rintro ⟨h, ht⟩
     exact ⟨h.nonempty, h.root, h.parent_lt, h.not_root, h.preorder, h.prev, h.last, h.next, ht⟩
+
+/-- No two adjacent Text siblings, for every parsed document: all character data between two
+markup constructs — entity expansions, CDATA sections and character references included — is in ONE
+text node. -/
+theorem parsed_no_adjacent_text (T : Tables) (txt : Bytes) (opt : Opt) (d : Doc)
+    (h : parse T txt opt = .ok d) : ∀ i j, i < d.nodes.size → prevSib d.nodes i = some j →
+      ¬ (kindIs d.nodes i Kind.isText = true ∧ kindIs d.nodes j Kind.isText = true) :=
+  parse_noAdj T txt opt d h
+
+/-- **Every parsed document satisfies the whole tree invariant `WF`** (all inputs, all options),
+and therefore the executable form `wfArenaB` evaluates to `true` on it. -/
+theorem parsed_wf (T : Tables) (txt : Bytes) (opt : Opt) (d : Doc)
+    (h : parse T txt opt = .ok d) : WF d.nodes ∧ wfArenaB d.nodes = true := by
+  have hw : WF d.nodes := (wf_iff_links d.nodes).mpr ⟨parsed_links T txt opt d h, parse_noAdj T txt opt d h⟩
+  exact ⟨hw, (wfArenaB_iff d.nodes).mpr hw⟩
 
 /-- Exactly one parentless node: node 0. -/
 theorem only_root_is_parentless (T : Tables) (txt : Bytes) (opt : Opt) (d : Doc)
